@@ -301,7 +301,7 @@ def main():
             continue
         if nontrivial(r, a_i):
             distinct.add(r)
-        if a_i != a_m:
+        if a_i != a_m and a_m != "nomodel":
             disagreements.append({"request": r, "impl": a_i, "model": a_m, "spec": canon(r, spec_ans[i]) if i in spec_ans else None})
         if i in spec_ans:
             a_s = canon(r, spec_ans[i])
